@@ -215,6 +215,7 @@ func (d *dhcpRun) history() {
 		return refdec.MAC{}, false
 	}
 	bc := netip.MustParseAddr("255.255.255.255")
+	rx := newRx()
 	for step, o := range d.ops {
 		cl := cls[o.C%len(cls)]
 		// "the client's capture state at that moment" is what the session reports: the flag lives in the MAC entry and is
@@ -365,7 +366,7 @@ func (d *dhcpRun) history() {
 		}
 		if frameB != nil {
 			pi := c.Guard("C08", func() any { return cs(step) }, func() {
-				frame, err := s.Parse(frameB)
+				frame, err := s.Parse(rx.load(frameB))
 				if err != nil {
 					panic("HARNESS BUG: generated frame rejected by Parse: " + err.Error())
 				}
@@ -378,6 +379,7 @@ func (d *dhcpRun) history() {
 				d.viol = true
 				return
 			}
+			rx.scribble() // the next ReadFrom overwrites the receive buffer
 		}
 		synctest.Wait()
 		for len(s.C) > 0 {
